@@ -51,7 +51,7 @@ def _hook(event, args):
 
 def shards(tier, seed):
     out = [{"ndumps": NDUMPS[tier]} for _ in range(NSH[tier])]
-    out.append({"kind": "deep", "depths": [300, 20000, 400000] if tier == "quick" else [300, 3000, 20000, 100000, 400000, 1000000]})
+    out.append({"kind": "deep", "depths": [300, 5000, 400000] if tier == "quick" else [300, 3000, 20000, 100000, 400000, 1000000]})
     return out
 
 
@@ -80,6 +80,16 @@ elif shape == "list_nest":
     data = (b"K" + I1 + b"F\x00\x00\x00\x00") * n + b"L" + b"P" * n + b"Q"
 elif shape == "dict_nest":
     data = (b"J" + b"F\x00\x00\x00\x00") * n + b"L" + b"P" * n + b"Q"
+elif shape == "tuple_then_unknown_opcode":
+    data = b"L" + (b"@" + I1) * n + b"?"
+elif shape == "list_nest_then_unknown_opcode":
+    data = (b"K" + I1 + b"F\x00\x00\x00\x00") * n + b"L" + b"P" * n + b"\xff"
+elif shape == "tuple_then_truncated":
+    data = b"L" + (b"@" + I1) * n + b"@\x00\x00"
+elif shape == "tuple_then_failing_opcode":
+    data = b"L" + (b"@" + I1) * n + b"L" + b"P" + b"Q"
+elif shape == "tuple_then_surplus_item":
+    data = b"L" + (b"@" + I1) * n + b"L" + b"Q"
 data = b"\x02" + data
 try:
     v = execnet.loads(data)
@@ -97,7 +107,9 @@ HASHED = ("tuple_in_set", "tuple_in_frozenset", "tuple_as_dict_key")
 def run_deep(spec):
     res = Result()
     for n in spec["depths"]:
-        for shape in ("tuple_plain", "tuple_in_set", "tuple_in_frozenset", "tuple_as_dict_key", "frozenset_nest", "list_nest", "dict_nest"):
+        for shape in ("tuple_plain", "tuple_in_set", "tuple_in_frozenset", "tuple_as_dict_key", "frozenset_nest", "list_nest", "dict_nest",
+                      "tuple_then_unknown_opcode", "list_nest_then_unknown_opcode", "tuple_then_truncated", "tuple_then_failing_opcode",
+                      "tuple_then_surplus_item"):
             label = f"{shape} nested {n} levels"
             try:
                 p = subprocess.run([core.PY, "-c", DEEP_CHILD, str(n), shape], env=core.child_env(), capture_output=True, text=True, timeout=120)
